@@ -7,6 +7,10 @@
 (***************************************************************************)
 EXTENDS FSProps
 
+\* A file's version stamp has one component per comparison of ensureExpectedFile:
+\* modification time (seconds, nanoseconds), size, mode (permission bits), file id.
+V0 == [ms |-> 0, mn |-> 0, sz |-> 0, md |-> 0, id |-> 0]        \* as scanned
+VNew == [ms |-> 9, mn |-> 9, sz |-> 9, md |-> 0, id |-> 9]      \* a file the transition put there
 DF(d, x, v) == [k |-> "file", d |-> d, x |-> x, v |-> v]
 
 \* what a scan reports for a disk (the stamp is invisible)
@@ -21,7 +25,7 @@ CacheOf(n) == [p \in FilePaths(n) |-> [v |-> At(n, p).v, d |-> At(n, p).d]]
 
 DirsOver(names, kids) == {D(c) : c \in PartialFns(names, kids)}
 
-DF1 == DF("d1", FALSE, 0)
+DF1 == DF("d1", FALSE, V0)
 DiskLeaves == {DF1, L("t1"), U}
 NewLeaves == {F("d1", FALSE), F("d2", FALSE), F("d1", TRUE), L("t1"), L("t2")}
 F2 == F("d2", FALSE)
@@ -52,6 +56,33 @@ DiskTreesOf(shape) == CASE shape = "wide" -> Disk_wide [] shape = "small" -> Dis
                         [] shape = "spine" -> Disk_spine [] shape = "edit" -> Disk_edit [] shape = "nest" -> Disk_nest
 TargetTreesOf(shape) == CASE shape = "wide" -> Target_wide [] shape = "small" -> Target_small [] shape = "two" -> Target_two
                           [] shape = "spine" -> Target_spine [] shape = "edit" -> Target_edit [] shape = "nest" -> Target_nest
+
+\* ------------------------------------------------------------ external edits
+\* Single-component edits of a file ("differs from what the scan recorded", each
+\* comparison in isolation and at its finest granularity), by name; the driver
+\* performs the edit of the same name with os calls.
+ModeOps == {"mode1", "mode2", "mode3", "mode4", "mode5", "mode6", "mode7", "mode8", "mode9"}   \* one permission bit: 0400 ... 0001
+ModeBit(op) == CASE op = "mode1" -> 1 [] op = "mode2" -> 2 [] op = "mode3" -> 3 [] op = "mode4" -> 4 [] op = "mode5" -> 5
+                 [] op = "mode6" -> 6 [] op = "mode7" -> 7 [] op = "mode8" -> 8 [] op = "mode9" -> 9
+StampOps == {"mtime+1ns", "mtime+999us", "mtime+1s", "mtime-1ns", "size+1", "size-1", "id"} \cup ModeOps
+FileOps == StampOps \cup {"content", "tolink", "todir", "delete"}
+LinkOps == {"retarget", "tofile", "todir", "delete"}
+DirOps == {"tofile"}
+\* the node an edit leaves at the edited path
+EditEffect(op, n) ==
+  CASE op = "content" -> DF("d9", n.x, [n.v EXCEPT !.ms = @ + 2, !.sz = @ + 5])     \* other bytes, other size, two seconds later
+    [] op = "mtime+1ns" -> DF("d9", n.x, [n.v EXCEPT !.mn = @ + 1])                 \* rewritten in place, same length
+    [] op = "mtime+999us" -> DF("d9", n.x, [n.v EXCEPT !.mn = @ + 2])
+    [] op = "mtime-1ns" -> DF("d9", n.x, [n.v EXCEPT !.mn = @ - 1])
+    [] op = "mtime+1s" -> DF("d9", n.x, [n.v EXCEPT !.ms = @ + 1])
+    [] op = "size+1" -> DF("d9", n.x, [n.v EXCEPT !.sz = @ + 1])                    \* modification time restored
+    [] op = "size-1" -> DF("d9", n.x, [n.v EXCEPT !.sz = @ - 1])
+    [] op \in ModeOps -> DF(n.d, n.x \/ ModeBit(op) \in {3, 6, 9}, [n.v EXCEPT !.md = ModeBit(op)])   \* one permission bit flipped
+    [] op = "id" -> DF(n.d, n.x, [n.v EXCEPT !.id = 1])                             \* replaced by an identical file (rename)
+    [] op \in {"retarget", "tolink", "createlink"} -> L("t9")
+    [] op \in {"newchild", "tofile", "createfile"} -> DF("d9", FALSE, VNew)
+    [] op \in {"todir", "createdir"} -> D(<<>>)
+    [] OTHER -> Nil    \* delete
 
 \* the plan a reconciliation towards `target` yields for the scanned disk
 PlanSet(disk, target) == Diff(<<>>, SyncObs(disk), target)
